@@ -658,3 +658,42 @@ package zygo
 //@ C09 assert jump-to-prologue @before call AddInstruction[*]: typeis(arg1, GotoInstr) ==> arg1.(GotoInstr).location == 1
 //@ func buildSexpFun
 //@ C09 assert function-scope-first @after call AddInstruction[0]: len(arg0.instructions) == 1
+
+// ===========================================================================
+// C03  lexical scoping: lookup stops at one function boundary; closures
+//      snapshot from the innermost function scope outward; fresh scopes
+// ===========================================================================
+//@ macro scopeAt(s *Stack, depth int) Sexp = s.elements[s.tos - depth]
+
+// The live-scope walk: with a budget of one function boundary, no scope below
+// the nearest function scope is reached (funcCount stays 0 while the loop runs),
+// every scope passed over does not bind the symbol, and a direct hit is the
+// binding of the scope it is returned with.
+//@ func (*Stack).LookupSymbolUntilFunction
+//@ requires typeinv[Stack] wfs(stack)
+//@ requires one-boundary: maximumFuncToSearch == 1
+//@ C03 loop 0 invariant boundary: 0 <= i && funcCount == 0 && stack.tos == old(stack.tos) && stack.elements == old(stack.elements)
+//@ C03 ensures not-found-is-an-error: r1 != nil ==> r2 == nil
+
+// Every lexical lookup walks the live scopes with a budget of exactly one
+// function boundary and without consulting captures of deeper frames.
+//@ func (*Zlisp).LexicalLookupSymbol
+//@ C03 assert live-walk-one-boundary @before call LookupSymbolUntilFunction[0]: arg3 == 1 && !arg4 && arg0 == env.linearstack
+//@ C03 assert own-captures-one-boundary @before call ClosingLookupSymbolUntilFunc[0]: arg3 == 1 && !arg4
+
+//@ func (*SexpFunction).ClosingLookupSymbolUntilFunction
+//@ C03 assert captured-walk-one-boundary @before call LookupSymbolUntilFunction[0]: arg3 == 1 && !arg4
+//@ func (*SexpFunction).LookupSymbolInParentChainOfClosures
+//@ C03 assert parent-chain-one-boundary @before call ClosingLookupSymbolUntilFunc[0]: arg3 == 1 && !arg4
+
+// A closure snapshot is a stack of its own (never the live stack), it is not
+// larger than the live stack, and its top is the live top scope.
+//@ func NewClosing
+//@ requires typeinv[Stack] wfs(env.linearstack)
+//@ C03 ensures own-stack: fresh(r0) && fresh(r0.Stack) && r0.Stack != env.linearstack && wfs(r0.Stack)
+//@ C03 ensures not-larger: r0.Stack.tos <= old(env.linearstack.tos)
+//@ C03 ensures live-stack-untouched: env.linearstack.tos == old(env.linearstack.tos) && env.linearstack.elements == old(env.linearstack.elements)
+//@ C01,C03 loop 0 invariant stk != nil && fresh(stk) && stk != env.linearstack && wfs(stk) && stk.tos == old(env.linearstack.tos) && i <= stk.tos
+//@ |  && env.linearstack.tos == old(env.linearstack.tos) && env.linearstack.elements == old(env.linearstack.elements)
+//@ C01,C03 loop 1 invariant fresh(trimmed) && trimmed != env.linearstack && wfs(trimmed) && trimmed.tos == rangeindex && rangeindex < stk.tos - i + 1 && 0 <= i && i <= stk.tos && stk.tos == old(env.linearstack.tos) && stk != trimmed && stk != env.linearstack
+//@ |  && env.linearstack.tos == old(env.linearstack.tos) && env.linearstack.elements == old(env.linearstack.elements)
